@@ -384,7 +384,7 @@ def extract_tests(text):
     kind, desc = None, ""
     vals = None
     for line in text.splitlines():
-        m = re.match(r"^/// Check for `([^`]*)`: \"(.*)\"", line)
+        m = re.match(r"^/// Check for `([^`]*)`: \"(.*?)\"?\s*$", line)  # a long description wraps: the closing quote may be on a later line
         if m:
             kind, desc = m.group(1), m.group(2)
             continue
